@@ -16,7 +16,7 @@ import (
 )
 
 func TestMain(m *testing.M) {
-	vh.Main(map[string]vh.CheckFunc{"C14mdb": C14mdb, "C14mdbRepl": C14mdbRepl})
+	vh.Main(map[string]vh.CheckFunc{"C14mdb": C14mdb, "C14mdbRepl": C14mdbRepl, "C13mdb": C13mdb})
 }
 
 const mdbRecorder = `name: recorder
